@@ -162,6 +162,10 @@ def count_char(s, ch, n=None):
     return s[: (len(s) if n is None else n)].count(ch)
 
 
+def last_index_of(s, ch):
+    return s.rfind(ch)
+
+
 def dict_separate(a, b):
     return a is not b
 
@@ -334,7 +338,7 @@ def base_env():
     env.update({k: v for k, v in vars(m).items() if not k.startswith("__")})
     g = globals()
     for k in ("forall", "exists", "implies", "iff", "ite", "is_none", "count_if", "sum_if", "same_list", "list_eq", "fmt",
-              "strcat", "has_key", "typename", "dict_values", "dict_keys", "dict_get", "count_char", "dict_separate", "trace_len", "trace_method", "trace_arg", "trace_kw", "trace_target",
+              "strcat", "has_key", "typename", "dict_values", "dict_keys", "dict_get", "count_char", "dict_separate", "last_index_of", "trace_len", "trace_method", "trace_arg", "trace_kw", "trace_target",
               "iter_trace_len", "iter_trace_method", "iter_trace_arg", "iter_trace_kw", "called", "call_count", "call_result",
               "out_len", "out_method", "out_arg", "out_kw"):
         env[k] = g[k]
